@@ -11,5 +11,7 @@ CONSTANTS
   StartEligible = TRUE
   MaxOther = 1
   MaxRestarts = 3
+  FaultAfter = 12
+  RaceBias = FALSE
   MaxStale = 1
 INVARIANTS Emit
